@@ -107,6 +107,9 @@ def rprog(rnd):
             return gen_jump.call(rnd.choice(['arrayIndexOf', 'arrayLastIndexOf']),
                                  gen_jump.call('arrayNew', *[gen_jump.num(rnd.randint(0, 3)) for _ in range(rnd.randint(0, 3))]),
                                  gen_jump.var(rnd.choice(fn)))
+        if r < 0.815:
+            # the branches of if() are ordinary expressions of the enclosing scope: they read the locals
+            return gen_jump.call('if', e(d + 1, scope), gen_jump.var(rnd.choice(scope)), e(d + 1, scope))
         if r < 0.83:
             # in-place mutation of whatever the name holds (a "..." array, an argument array, a global)
             return gen_jump.call('arrayPush', gen_jump.var(rnd.choice(scope)), gen_jump.num(rnd.randint(0, 3)))
